@@ -167,6 +167,9 @@ func (s *sniffer) Read(p []byte) (int, error) {
 	if s.bufferSize > s.bufferRead {
 		bn := copy(p, s.buffer.Bytes()[s.bufferRead:s.bufferSize])
 		s.bufferRead += bn
+		if s.bufferRead < s.bufferSize {
+			return bn, nil // The error belongs to the end of what was sniffed
+		}
 		return bn, s.lastErr
 	} else if !s.sniffing && s.buffer.Cap() != 0 {
 		s.buffer = bytes.Buffer{}
